@@ -39,7 +39,7 @@ fn contract(bounded: crate::parser::ParseResult<Vec<u8>>, unbounded: crate::pars
     std::mem::forget(unbounded);
 }
 
-// @ob id=hex_limit unwind=7 unwindset="decode_ascii_hex_with_limit.0:4" stubs=fmt,vec tier=quick timeout=1200 mem=16 bound="ASCIIHex: every 4-byte input, every limit in usize"
+// @ob id=hex_limit unwind=7 unwindset="decode_ascii_hex_with_limit.0:4" stubs=fmt,vec tier=quick timeout=1200 mem=24 bound="ASCIIHex: every 4-byte input, every limit in usize"
 fn hex_limit<const KF: usize>() {
     let buf: [u8; 4] = kani::any();
     let max: usize = kani::any();
@@ -68,15 +68,15 @@ fn a85_limit_n<const N: usize, const E: usize, const DIGITS_ONLY: bool>() {
     contract(b, u, max);
     kani::cover!(true, "end reached");
 }
-// @ob id=a85_limit_d2 unwind=6 unwindset="decode_ascii85_with_limit.0:4" stubs=fmt,vec tier=quick timeout=1500 mem=20 bound="ASCII85: a final partial group of 2 arbitrary digits + '~>', every limit in usize"
+// @ob id=a85_limit_d2 unwind=6 unwindset="decode_ascii85_with_limit.0:4" stubs=fmt,vec tier=quick timeout=1500 mem=28 bound="ASCII85: a final partial group of 2 arbitrary digits + '~>', every limit in usize"
 fn a85_limit_d2<const KF: usize>() { a85_limit_n::<2, 4, true>() }
-// @ob id=a85_limit_d3 unwind=7 unwindset="decode_ascii85_with_limit.0:5" stubs=fmt,vec tier=quick timeout=1500 mem=20 bound="ASCII85: a final partial group of 3 arbitrary digits + '~>', every limit in usize"
+// @ob id=a85_limit_d3 unwind=7 unwindset="decode_ascii85_with_limit.0:5" stubs=fmt,vec tier=quick timeout=1500 mem=28 bound="ASCII85: a final partial group of 3 arbitrary digits + '~>', every limit in usize"
 fn a85_limit_d3<const KF: usize>() { a85_limit_n::<3, 5, true>() }
 
 // RunLength: runs of at most 4 bytes (length byte in 0..=3, 253..=255 or 128) so that the
 // repeat loop stays within the unwinding bound
 fn short_run(b: u8) -> bool { b <= 3 || b >= 253 || b == 128 }
-// @ob id=rle_limit unwind=10 stubs=fmt,vec tier=quick timeout=1500 mem=20 bound="RunLength: every 5-byte input whose length bytes denote runs of at most 4 bytes, every limit in usize"
+// @ob id=rle_limit unwind=10 stubs=fmt,vec tier=quick timeout=1500 mem=28 bound="RunLength: every 5-byte input whose length bytes denote runs of at most 4 bytes, every limit in usize"
 fn rle_limit<const KF: usize>() {
     let buf: [u8; 5] = kani::any();
     let max: usize = kani::any();
